@@ -439,3 +439,34 @@ Proof.
   specialize (H [[0; 1; 2]; [0; 0; 2]; [0; 1; 0]] 1 [[(2, 1); (0, 2)]; [(0, 2); (1, 2)]; [(0, 2)]]%nat).
   vm_compute in H. specialize (H eq_refl). discriminate H.
 Qed.
+
+(* ---------- end to end: the executable run functions return a q that IS the definitional Q of the returned labels ---------- *)
+Lemma final_lab_lt n lb : lab_lt n (nlab n (zlab lb)) (tabv O n (relabel0 n (zlab lb))).
+Proof. intros i Hi. rewrite tabv_spec by exact Hi. apply relabel0_lt; exact Hi. Qed.
+
+(* modularity_finetune_dir: for EVERY matrix, gamma, initial labels and recorded move list (no side condition) *)
+Theorem run_finetune_dir_consistent rows g ci moves :
+  let r := run_finetune_dir rows g ci moves in ret_q r = ret_qdef r.
+Proof.
+  unfold run_finetune_dir. cbv zeta.
+  destruct (finetune_dir_init (length rows) (of_rows 0 rows) (init_lab (length rows) ci)) as [st0 [ko ki]].
+  destruct (replay _ _ st0 moves) as [tr st].
+  unfold ret_q, ret_qdef. cbn [fst snd]. apply Qred_complete.
+  rewrite (closing_ext _ _ (agg (length rows) (of_rows 0 rows) (tabv O (length rows) (relabel0 (length rows) (zlab (lab st))))))
+    by (intros; apply tabQ_spec; assumption).
+  apply q_closing_dir_eq_def. apply final_lab_lt.
+Qed.
+
+(* modularity_finetune_und: for every SYMMETRIC matrix *)
+Theorem run_finetune_und_consistent rows g ci moves :
+  sym_on (length rows) (of_rows 0 rows) ->
+  let r := run_finetune_und rows g ci moves in ret_q r = ret_qdef r.
+Proof.
+  intros Hsym. unfold run_finetune_und. cbv zeta.
+  destruct (finetune_und_init (length rows) (of_rows 0 rows) (init_lab (length rows) ci)) as [st0 k].
+  destruct (replay _ _ st0 moves) as [tr st].
+  unfold ret_q, ret_qdef. cbn [fst snd]. apply Qred_complete.
+  rewrite (closing_ext _ _ (agg_lower (length rows) (of_rows 0 rows) (tabv O (length rows) (relabel0 (length rows) (zlab (lab st))))))
+    by (intros; apply tabQ_spec; assumption).
+  apply (q_closing_und_eq_def _ _ _ g _ (final_lab_lt (length rows) (lab st)) Hsym).
+Qed.
